@@ -468,7 +468,36 @@ func bvcmp(op string, a, b *Term, f func(a, b *Term) bool) *Term {
 	if a.Const && b.Const {
 		return Bool(f(a, b))
 	}
+	// emptiness tests on a string's length (len(s) > 0, len(s) < 1, 0 < len(s), ...) are decided on the string
+	if a.W == 64 {
+		if s := strOfLen(a); s != nil && b.Const {
+			empty := Eq(s, StrLit(""))
+			switch {
+			case op == "bvslt" && b.SInt() == 1, op == "bvsle" && b.SInt() == 0, op == "bvult" && b.U == 1, op == "bvule" && b.U == 0:
+				return empty
+			case op == "bvslt" && b.SInt() == 0, op == "bvult" && b.U == 0:
+				return False
+			}
+		}
+		if s := strOfLen(b); s != nil && a.Const {
+			nonEmpty := Not(Eq(s, StrLit("")))
+			switch {
+			case op == "bvslt" && a.SInt() == 0, op == "bvsle" && a.SInt() == 1, op == "bvult" && a.U == 0, op == "bvule" && a.U == 1:
+				return nonEmpty
+			case op == "bvsle" && a.SInt() == 0, op == "bvule" && a.U == 0:
+				return True
+			}
+		}
+	}
 	return app(KBool, 0, op, a, b)
+}
+
+// strOfLen: s when t is the 64-bit view of str.len(s)
+func strOfLen(t *Term) *Term {
+	if strings.HasPrefix(t.Op, "(_ int2bv") && len(t.Args) == 1 && t.Args[0].Op == "str.len" && len(t.Args[0].Args) == 1 {
+		return t.Args[0].Args[0]
+	}
+	return nil
 }
 func BVUlt(a, b *Term) *Term {
 	return bvcmp("bvult", a, b, func(a, b *Term) bool { return a.U < b.U })
